@@ -13,6 +13,22 @@ PROPS = {
         "level_note": _TB + "Modelled not verified: cavity insertion / hull extension / local repair are a parameter of the pipeline model (their outputs are judged per run); the local-to-global Delaunay lemma and 'L1-L3 + positive orientation => cells tile the hull' are not proved; IEEE arithmetic is outside the model (violations inside tolerance+rounding band are not counted).",
         "technique": "Lean 4 proof of the construction gate structure over an arbitrary insertion function + exact-arithmetic certificate (Lean, proved meaning) applied to every real constructor output",
     },
+    "C02": {
+        "lean_modules": ["DelaunayModel.Props.C02"],
+        "required_theorems": ["DM.C02.selectCheck_table", "DM.C02.selectCheck_pl_never_none", "DM.C02.safetyNet_ok_checked",
+                              "DM.C02.insert_commit_or_restore", "DM.C02.compatible_table"],
+        "level_text": "Theorems (Lean kernel): the validation selected after an insertion equals the documented table for every (ValidationPolicy, TopologyGuarantee, suspicion, build profile); under PL guarantees a state with cells is never committed unchecked; for EVERY behaviour of the geometric insertion step (a parameter) the safety net returns only bootstrap states or states that passed the selected check (star-split fallback included) and insert_transactional either commits such a state or leaves the snapshot (any number of perturbation retries). Correspondence (K3): histories of insert / insert_with_statistics from empty and constructed triangulations, D=2..5, all point classes (interior, exterior, on-facet, duplicate, near-duplicate, collinear prefixes), policies changed mid-history; after EVERY call the state is exported and Levels 1-3 are recomputed in Lean at the configured guarantee (or bootstrap), reported insertions must add exactly the caller's vertex, and with the per-insertion Delaunay check on the exact empty-sphere oracle must hold.",
+        "level_note": _TB + "Modelled not verified: cavity insertion, hull extension, star split (Env.impl). Under ValidationPolicy::Never + Pseudomanifold no check runs at all (theorem selectCheck_never_pseudo); there only the K3 tie speaks.",
+        "technique": "Lean 4 proof of the post-insertion validation table and commit-or-restore over an arbitrary insertion function + independent L1-L3 recomputation after every real insert call",
+    },
+    "C06": {
+        "lean_modules": ["DelaunayModel.Props.C06"],
+        "required_theorems": ["DM.C06.remove_unknown_noop", "DM.C06.remove_err_unchanged", "DM.C06.remove_ok_valid_or_empty",
+                              "DM.C06.removeUuid_mem", "DM.C06.removeUuid_length"],
+        "level_text": "Theorems (Lean kernel): removing an unknown vertex is Ok(0) and a no-op; any Err leaves the state untouched; an Ok result has no cells or passed Level 3, for every behaviour of fan retriangulation and flip repair (parameters); the vertex table loses exactly the entries with that UUID and keeps all others bit-for-bit. Correspondence (K3): removal histories (interior, hull, unknown, repeated, down to the last vertices, interleaved with insertions, repair on/off), D=2..5; after every call the state is exported, L1-L3 recomputed in Lean, other vertices compared bit-for-bit, and with repair on the exact empty-sphere oracle applied.",
+        "level_note": _TB + "Modelled not verified: inverse k=1 path, fan fill and post-removal flip repair (Env.unguarded). Two genuine defects are recorded as known findings F8a/F8b (known_findings.json) and reported as KNOWN-FINDING, any other violation is reported.",
+        "technique": "Lean 4 proof of the transactional removal wrapper and vertex bookkeeping + independent recomputation of every state after remove_vertex",
+    },
     "C04": {
         "lean_modules": ["DelaunayModel.Props.C04"],
         "required_theorems": ["DM.C04.emptySphere_iff", "DM.C04.k2_symmetric", "DM.C04.k2_both_positive",
